@@ -441,6 +441,43 @@ def _guarded_limit(mod, fn, name, loop):
     return best
 
 
+def _guarded_limit_through_callers(mod, fn, name, depth=0):
+    """the bound is a parameter of a helper function: its largest value is what the callers can pass.  Every call of the helper in its module must hand over a name that the
+    caller has validated against a constant limit before the call (or, in turn, a parameter validated by the caller's callers); the answer is the largest such limit."""
+    if depth > 3:
+        return None
+    params = [a.arg for a in fn.args.args]
+    if name not in params:
+        return None
+    pos = params.index(name)
+    if any(m_ in ('self',) for m_ in params[:1]):
+        pos_call = pos - 1
+    else:
+        pos_call = pos
+    sites = []
+    for caller in [x for x in ast.walk(mod.tree) if isinstance(x, ast.FunctionDef) and x is not fn]:
+        for c in ast.walk(caller):
+            if isinstance(c, ast.Call) and ((isinstance(c.func, ast.Name) and c.func.id == fn.name) or (isinstance(c.func, ast.Attribute) and c.func.attr == fn.name)):
+                sites.append((caller, c))
+    if not sites:
+        return None
+    best = None
+    for caller, c in sites:
+        actual = c.args[pos_call] if 0 <= pos_call < len(c.args) else next((k.value for k in c.keywords if k.arg == name), None)
+        if isinstance(actual, ast.Constant) and isinstance(actual.value, int):
+            lim = actual.value
+        elif isinstance(actual, ast.Name):
+            lim = _guarded_limit(mod, caller, actual.id, c)
+            if lim is None:
+                lim = _guarded_limit_through_callers(mod, caller, actual.id, depth + 1)
+        else:
+            lim = None
+        if lim is None:
+            return None
+        best = lim if best is None else max(best, lim)
+    return best
+
+
 def index_width_lint(chk, repo, rule, paths):
     """In the compiled sources a `for i in range(n)` whose index is declared with a narrower C integer type than its bound wraps around (or never terminates) as soon as the bound
     exceeds the index type's range: every loop index must be at least as wide as every integer variable its bound is computed from."""
@@ -499,6 +536,8 @@ def index_width_lint(chk, repo, rule, paths):
                                     worst = (x.id, wb, tb)
                     if worst is not None:
                         lim = _guarded_limit(mod, fn, worst[0], lp)
+                        if lim is None:
+                            lim = _guarded_limit_through_callers(mod, fn, worst[0])
                         if lim is not None and lim <= 2 ** (8 * wi) - 1:
                             worst = None          # the bound is validated against a limit the index type can hold before the loop runs
                     chk.ob(rule, f'{rel}::{fn.name}: loop index `{idx_name}` ({it_}) is at least as wide as its bound `{shown}` (or the bound is validated against a limit it can hold)', worst is None,
